@@ -111,3 +111,107 @@ Proof.
   destruct (drain (set_cbs s4 c [])); repeat split; try exact Q; try exact P;
     try (change (cbs_of (semit (set_cbs s4 c []) (SGone c)) c) with (cbs_of (set_cbs s4 c []) c)); apply cbs_of_set_same.
 Qed.
+
+(* ------------------------------------------------------------------ *)
+(** * C11, isolation: what a handler does for client [c] leaves every other client's queue, pending id and callbacks
+    untouched, in every state (hence in every schedule).  The pump labels are not covered: the pump serves all
+    clients, and its stale loop variables (finding F1) are exactly a violation of this at pump level. *)
+
+Definition concerns (l : slab) (c : Z) : Prop :=
+  match l with
+  | Connect x | Disconnect x | SSend x _ _ | SReply x _ _ | SNetFail x _ | TimerTok x => x = c
+  | _ => False
+  end.
+
+Lemma view_semit s e d : view (semit s e) d = view s d.
+Proof. reflexivity. Qed.
+
+Lemma view_fold_semit (f : Z -> sev) l s d : view (fold_left (fun st cb => semit st (f cb)) l s) d = view s d.
+Proof. revert s. induction l as [|x l IH]; intros s; cbn [fold_left]; [reflexivity|]. rewrite IH. reflexivity. Qed.
+
+Lemma view_set_cbs_other s c l d : c <> d -> view (set_cbs s c l) d = view s d.
+Proof.
+  intros H. unfold view. rewrite cbs_of_set_other by exact H.
+  unfold qof, pendof, set_cbs. reflexivity.
+Qed.
+
+Lemma view_upd_qm_set_other s c l d : c <> d -> view (upd_qm s (a_set (qm s) c l)) d = view s d.
+Proof. intros H. unfold view, qof, pendof, cbs_of. cbn. rewrite a_get_set_other by exact H. reflexivity. Qed.
+
+Lemma view_upd_qm_del_other s c d : c <> d -> view (upd_qm s (a_del (qm s) c)) d = view s d.
+Proof. intros H. unfold view, qof, pendof, cbs_of. cbn. rewrite a_get_del_other by exact H. reflexivity. Qed.
+
+Lemma view_upd_pendm_set_other s c v d : c <> d -> view (upd_pendm s (a_set (pendm s) c v)) d = view s d.
+Proof. intros H. unfold view, qof, pendof, cbs_of. cbn. rewrite a_get_set_other by exact H. reflexivity. Qed.
+
+Lemma view_upd_pendm_del_other s c d : c <> d -> view (upd_pendm s (a_del (pendm s) c)) d = view s d.
+Proof. intros H. unfold view, qof, pendof, cbs_of. cbn. rewrite a_get_del_other by exact H. reflexivity. Qed.
+
+Lemma view_on_disconnected s c d : c <> d -> view (on_disconnected s c) d = view s d.
+Proof.
+  intros H. unfold on_disconnected. cbv zeta.
+  set (s1 := upd_qm s (a_del (qm s) c)).
+  set (s2 := if running s1 then upd_reqC s1 (reqC s1 ++ [c]) else s1).
+  set (s3 := upd_pendm s2 (a_del (pendm s2) c)).
+  set (s4 := fold_left (fun st cb => semit st (SCb c cb 0 K_DISC)) (cbs_of s3 c) s3).
+  assert (V1 : view s1 d = view s d) by (apply view_upd_qm_del_other; exact H).
+  assert (V2 : view s2 d = view s d) by (subst s2; destruct (running s1); [exact V1|exact V1]).
+  assert (V3 : view s3 d = view s d) by (subst s3; rewrite view_upd_pendm_del_other by exact H; exact V2).
+  assert (V4 : view s4 d = view s d) by (subst s4; rewrite (view_fold_semit (fun cb => SCb c cb 0 K_DISC)); exact V3).
+  assert (V5 : view (set_cbs s4 c []) d = view s d) by (rewrite view_set_cbs_other by exact H; exact V4).
+  destruct (drain (set_cbs s4 c [])); [rewrite view_semit|]; exact V5.
+Qed.
+
+Lemma view_scomplete b s c r d : c <> d -> view (scomplete b s c r) d = view s d.
+Proof.
+  intros H. unfold scomplete. destruct (qof s c) as [[|h t]|]; try reflexivity.
+  destruct (h =? r); [|reflexivity]. cbv zeta.
+  set (s1 := upd_qm s (a_set (qm s) c t)).
+  assert (V1 : view s1 d = view s d) by (apply view_upd_qm_set_other; exact H).
+  set (s2 := if pendof s1 c =? r then upd_pendm s1 (a_set (pendm s1) c 0) else s1).
+  assert (V2 : view s2 d = view s d).
+  { subst s2. destruct (pendof s1 c =? r); [rewrite view_upd_pendm_set_other by exact H|]; exact V1. }
+  destruct (b && negb match readyC s2 with [] => true | _ :: _ => false end); exact V2.
+Qed.
+
+Lemma view_deliver s c r k d : c <> d -> view (deliver s c r k) d = view s d.
+Proof.
+  intros H. unfold deliver. destruct (cbs_of s c) as [|cb rest]; [reflexivity|].
+  rewrite view_semit. apply view_set_cbs_other. exact H.
+Qed.
+
+Theorem s_handler_isolation : forall l s c d, concerns l c -> c <> d -> view (sstep l s) d = view s d.
+Proof.
+  intros l s c d Hc Hne. destruct l; cbn [concerns] in Hc; try contradiction; subst.
+  - (* Connect *)
+    cbn [sstep]. destruct (mem c (conns s)); [reflexivity|]. cbv zeta. rewrite view_semit.
+    set (s1 := upd_conns s (conns s ++ [c])).
+    destruct (running s1); [|reflexivity].
+    destruct (qof s1 c); [reflexivity|]. rewrite view_upd_qm_set_other by exact Hne. reflexivity.
+  - (* Disconnect *)
+    cbn [sstep]. destruct (mem c (conns s)); [|reflexivity]. rewrite view_on_disconnected by exact Hne. reflexivity.
+  - (* SSend *)
+    cbn [sstep]. cbv zeta. set (s1 := set_cbs s c (cbs_of s c ++ [r])).
+    assert (V1 : view s1 d = view s d) by (apply view_set_cbs_other; exact Hne).
+    destruct (running s1 && valid && match qof s1 c with Some _ => true | None => false end &&
+              negb match qof s1 c with Some l => (qcap s1 <=? zlen l) && (0 <? qcap s1) | None => false end).
+    + rewrite view_semit.
+      change (view (upd_reqC (upd_qm s1 (a_set (qm s1) c (match qof s1 c with Some l => l | None => [] end ++ [r]))) (reqC s1 ++ [c])) d)
+        with (view (upd_qm s1 (a_set (qm s1) c (match qof s1 c with Some l => l | None => [] end ++ [r]))) d).
+      rewrite view_upd_qm_set_other by exact Hne. exact V1.
+    + rewrite view_semit, view_set_cbs_other by exact Hne. exact V1.
+  - (* SReply *)
+    cbn [sstep]. destruct (mem c (conns s) && negb (r =? 0) && (pendof s c =? r)); [|reflexivity].
+    unfold sconclude. rewrite view_deliver by exact Hne. rewrite view_semit. apply view_scomplete. exact Hne.
+  - (* TimerTok *) cbn [sstep]. destruct (running s); reflexivity.
+  - (* SNetFail *) reflexivity.
+Qed.
+
+(** ... and over any number of such handler steps *)
+Theorem s_handlers_isolation : forall ls s d,
+  Forall (fun l => exists c, concerns l c /\ c <> d) ls -> view (srun ls s) d = view s d.
+Proof.
+  induction ls as [|l ls IH]; intros s d H; [reflexivity|].
+  inversion H as [|? ? [c [Hc Hne]] Hr]; subst. unfold srun. cbn [fold_left]. fold (srun ls (sstep l s)).
+  rewrite IH by exact Hr. apply (s_handler_isolation l s c d Hc Hne).
+Qed.
